@@ -72,29 +72,39 @@ theorem header_digits (n : Nat) (hn : n < 10^9) :
 
 /-! ### the header -/
 
+/-- the header as a delimiter followed by one data write; the state handed to the delimiter is only
+described through the four non-ghost fields -/
 theorem resultBlockHeader_eq (o : Out) (len : Nat) :
-    resultBlockHeader o len =
-      writeData (writeDelimiter { o with arbRemaining := len })
+    ∃ o2 : Out, resultBlockHeader o len =
+      writeData (writeDelimiter o2)
         ([35, UInt8.ofNat ((charsToBytes (IntFmt.toStrBaseSign 32 tbl32 (len % 2^32) Gen.blockHeaderLen
             (Gen.blockHeaderBase : Nat) false).1.chars).length + 48)] ++
           charsToBytes (IntFmt.toStrBaseSign 32 tbl32 (len % 2^32) Gen.blockHeaderLen
-            (Gen.blockHeaderBase : Nat) false).1.chars) := rfl
+            (Gen.blockHeaderBase : Nat) false).1.chars) ∧
+      o2.written = o.written ∧ o2.outputCount = o.outputCount ∧ o2.arbRemaining = len ∧ o2.pushed = o.pushed :=
+  ⟨_, rfl, rfl, rfl, rfl, rfl⟩
+
+theorem writeData_fields (o : Out) (d : Bytes) :
+    (writeData o d).written = o.written ++ d ∧ (writeData o d).outputCount = o.outputCount ∧
+    (writeData o d).arbRemaining = o.arbRemaining ∧ (writeData o d).pushed = o.pushed := ⟨rfl, rfl, rfl, rfl⟩
 
 theorem header_state (o : Out) (n : Nat) (hn : n < 10^9) :
     (resultBlockHeader o n).written = o.written ++ (sepOf o ++ [35, UInt8.ofNat (48 + (decimal n).length)] ++ decimal n) ∧
     (resultBlockHeader o n).arbRemaining = n ∧
     (resultBlockHeader o n).outputCount = (if o.outputCount < 0 then 0 else o.outputCount) ∧
     (resultBlockHeader o n).pushed = o.pushed := by
-  rw [resultBlockHeader_eq, header_digits n hn]
-  obtain ⟨h1, h2, h3, h4⟩ := writeDelimiter_spec { o with arbRemaining := n }
+  obtain ⟨o2, he, e1, e2, e3, e4⟩ := resultBlockHeader_eq o n
+  rw [he, header_digits n hn]
+  obtain ⟨h1, h2, h3, h4⟩ := writeDelimiter_spec o2
+  obtain ⟨w1, w2, w3, w4⟩ := writeData_fields (writeDelimiter o2)
+    ([35, UInt8.ofNat ((decimal n).length + 48)] ++ decimal n)
+  have hsep : sepOf o2 = sepOf o := by unfold sepOf; rw [e2]
   refine ⟨?_, ?_, ?_, ?_⟩
-  · show (writeDelimiter { o with arbRemaining := n }).written ++ _ = _
-    rw [h1, Nat.add_comm]
-    show o.written ++ sepOf o ++ _ = _
+  · rw [w1, h1, hsep, e1, Nat.add_comm]
     simp [List.append_assoc]
-  · exact h3
-  · exact h2
-  · exact h4
+  · rw [w3, h3, e3]
+  · rw [w2, h2, e2]
+  · rw [w4, h4, e4]
 
 theorem header_spec (o : Out) (n : Nat) (hn : n < 10^9) :
     let o' := resultBlockHeader o n
@@ -124,11 +134,10 @@ theorem over_length_refused (o : Out) (d : Bytes) (h : o.arbRemaining < d.length
     let o' := resultBlockData o d
     o'.written = o.written ∧ o'.pushed = o.pushed ++ [-310] ∧ o'.arbRemaining = o.arbRemaining ∧ o'.outputCount = o.outputCount := by
   intro o'
-  have : o' = { o with pushed := o.pushed ++ [-310] } := by
-    show resultBlockData o d = _
-    unfold resultBlockData
-    rw [if_pos h]
-  rw [this]
+  show (resultBlockData o d).written = _ ∧ (resultBlockData o d).pushed = _ ∧
+    (resultBlockData o d).arbRemaining = _ ∧ (resultBlockData o d).outputCount = _
+  unfold resultBlockData
+  rw [if_pos h]
   exact ⟨rfl, rfl, rfl, rfl⟩
 
 theorem block_spec (o : Out) (d : Bytes) (hd : d.length < 10^9) :
@@ -257,10 +266,8 @@ theorem flatMap_reverse_one : ∀ (elems : List Bytes), (∀ e ∈ elems, e.leng
 
 theorem array_bad_size (o : Out) (elems : List Bytes) (sz : Nat) (same : Bool) (h : ¬(sz = 1 ∨ sz = 2 ∨ sz = 4 ∨ sz = 8)) :
     (resultArrayBinary o elems sz same).written = o.written ∧ (resultArrayBinary o elems sz same).pushed = o.pushed ++ [-310] := by
-  have : resultArrayBinary o elems sz same = { o with pushed := o.pushed ++ [-310] } := by
-    unfold resultArrayBinary
-    rw [if_pos (by simpa using h)]
-  rw [this]
+  unfold resultArrayBinary
+  rw [if_pos (by simpa using h)]
   exact ⟨rfl, rfl⟩
 
 theorem array_binary (o : Out) (elems : List Bytes) (sz : Nat) (hsz : sz = 1 ∨ sz = 2 ∨ sz = 4 ∨ sz = 8)
